@@ -43,11 +43,22 @@ EXACT_TOL = 1e-9
 LEN_NOISE_M = 5e-8
 
 
-def ratio_tol(L, rep=None):
+def ratio_tol(L, rep=None, aspect=1.0):
     """Relative tolerance for sums / shares of a segment of geodesic length L metres. Values
     given as float32 are only conserved to float32 precision (NumPy keeps float32 when such a
-    value is scaled by a Python float): 4 float32 epsilons."""
-    return EXACT_TOL + (LEN_NOISE_M / L if L > 0 else 0.0) + (4 * 1.1920929e-07 if rep == 'f32' else 0.0)
+    value is scaled by a Python float): 4 float32 epsilons. aspect = |dlon/dlat| or its inverse
+    (>= 1; 1 for exactly zonal / meridional legs): intersecting a nearly zonal or nearly
+    meridional line with a grid line in float64 radians is ill-conditioned in proportion to it
+    (1 ulp of a coordinate, about 0.7 nm, times the aspect ratio; observed 6e-5 m at 1.25e6)."""
+    noise = LEN_NOISE_M + 1e-9 * aspect
+    return EXACT_TOL + (noise / L if L > 0 else 0.0) + (4 * 1.1920929e-07 if rep == 'f32' else 0.0)
+
+
+def aspect_ratio(a, b):
+    d0, d1 = abs(b[0] - a[0]), abs(b[1] - a[1])
+    if d0 == 0 or d1 == 0:
+        return 1.0
+    return float(max(d0 / d1, d1 / d0)) if not isinstance(d0, int) else max(d0 / d1, d1 / d0)
 # C04, antimeridian segment only: the property allows "the small excess caused by measuring
 # straight map-line pieces with great-circle lengths" without fixing the route across the
 # antimeridian; the largest such excess over every ordinary segment of the lattice is 3.97e-4
@@ -316,6 +327,7 @@ def sublattices(tier, seed=0):
     subs += world_sublattices()
     subs += edge_sublattices()
     subs += size_sublattices()
+    subs += slope_sublattices()
     subs += representation_sublattices()
     subs += nano_sublattices()
     subs += even_grid_sublattices()
@@ -440,6 +452,45 @@ def size_sublattices():
                     cs.append(_chain(gid, (1, 1), legs))
     cs = [c for c in cs if c is not None]
     subs.append(dict(name='many-points', axes={'grid': ['deg1', 'tenth'], 'points': [100, 300], 'phase': 2, 'long leg': ['none', 'first', 'middle', 'last']}, cases=cs))
+    return subs
+
+
+# SLOPE as an axis: nearly (not exactly) zonal and nearly meridional legs, aspect ratio 50 ...
+# 2e6, that cross one line of the "short" axis at 1/4, 1/2 or 3/4 of their length and several
+# lines of the "long" axis before and after it
+SLOPE_RATIOS = [50, 500, 2000, 20000, 2000000]
+
+
+def slope_sublattices():
+    subs = []
+    f = U7 // MDEG
+    for gid, (i, j) in (('deg1', (2, 2)), ('tenth', (2, 2)), ('irreg', (3, 1))):
+        g = GRIDS[gid]
+        la, lo = g['win_lat'], g['win_lon']
+        c = (la[i] * f, lo[j] * f)
+        cell = (min(la[i + 1] - la[i], la[i] - la[i - 1]) * f, min(lo[j + 1] - lo[j], lo[j] - lo[j - 1]) * f)
+        pre = ((la[1] + (la[2] - la[1]) // 2) * f, (lo[1] + (lo[2] - lo[1]) // 2) * f)
+        cs = []
+        for ratio, frac, zonal, s0, s1, cells in itertools.product(SLOPE_RATIOS, (1, 2, 3), (True, False), (1, -1), (1, -1), (2.5, 6.5)):
+            k = 1 if zonal else 0  # index of the long axis
+            if gid == 'irreg' and cells > 3:
+                continue
+            W = round(cells * cell[k])
+            eps2 = max(2, W // ratio)
+            off = round(0.3 * cell[k])
+            sgn = (s0, s1)
+            start, end = [0, 0], [0, 0]
+            start[k] = c[k] + off - sgn[k] * (W * frac // 4)
+            end[k] = start[k] + sgn[k] * W
+            start[1 - k] = c[1 - k] - sgn[1 - k] * (eps2 * frac // 4)
+            end[1 - k] = start[1 - k] + sgn[1 - k] * eps2
+            a, b = tuple(start), tuple(end)
+            cs.append(_case(gid, (a, b), u=U7))
+            cs.append(_case(gid, (pre, a, b), u=U7))
+        subs.append(dict(
+            name=f'slope:{gid}', cases=cs,
+            axes={'aspect ratio': SLOPE_RATIOS, 'crossing at quarter': [1, 2, 3], 'orientation': ['nearly zonal', 'nearly meridional'], 'signs': 4, 'long-axis cells': [2.5, 6.5], 'embedding': ['alone', 'after an ordinary leg']},
+        ))  # fmt: skip
     return subs
 
 
@@ -1336,7 +1387,7 @@ def evaluate(case, force_vals=None, fresh=False):
     segs = []
     for a, b in zip(p['pts'][:-1], p['pts'][1:]):
         bu = unwrap_end(a, b, p['unit'])
-        segs.append(dict(a=a, b=bu, am=is_am(a, b, p['unit']), exact=exact_segment(a, bu, g)))
+        segs.append(dict(a=a, b=bu, am=is_am(a, b, p['unit']), exact=exact_segment(a, bu, g), aspect=aspect_ratio(a, bu)))
     return dict(p=p, tab=tab, segs=segs, grid=g, vgrids=VGRIDS[p['vg']], variant=variant, mutated=res['inputs_mutated'])
 
 
